@@ -7,6 +7,37 @@ mod scope;
 #[cfg(test)]
 mod tests;
 
+/// Verification hook (compiled only under `--cfg mscript_verif`): drives the bytecode writer
+/// with arbitrary function names, opcodes and argument strings.
+#[cfg(mscript_verif)]
+pub mod verif {
+    use crate::ast::{CompiledFunctionId, CompiledItem};
+
+    /// `functions`: (name, [(opcode, arguments)]); `text`: human-readable form.
+    pub fn repr_functions(
+        functions: &[(String, Vec<(u8, Vec<String>)>)],
+        text: bool,
+    ) -> anyhow::Result<String> {
+        let mut out = String::new();
+        for (name, instructions) in functions {
+            let content = instructions
+                .iter()
+                .map(|(id, arguments)| CompiledItem::Instruction {
+                    id: *id,
+                    arguments: arguments.clone().into_boxed_slice(),
+                })
+                .collect();
+            let function = CompiledItem::Function {
+                id: CompiledFunctionId::Custom(name.clone()),
+                content: Some(content),
+                location: std::sync::Arc::new(std::path::PathBuf::new()),
+            };
+            out += &function.repr(text)?;
+        }
+        Ok(out)
+    }
+}
+
 use std::borrow::Cow;
 use std::cell::{Ref, RefCell};
 use std::collections::{HashMap, HashSet};
